@@ -7,7 +7,7 @@ import z3
 from vf import core, gen, pipe, symx
 
 ID = "C15"
-RHS = ["x", "x + f", "f:g", "x + (x|g)", "0 + f + x:f"]
+RHS = ["x", "x + f", "f:g", "x + (x|g)", "0 + f + x:f", "x - 1", "x + f + 0", "f + (1|g) - 1", "-1 + x"]
 # (response text, kind)
 RESP = [
     ("y", "numeric"), ("f", "cat"), ("g", "cat"), ("h", "cat"), ("g[t]", "level:g:t"), ("g['t']", "level:g:t"), ('f["a"]', "level:f:a"), ("h[o]", "level:h:o"),
